@@ -136,7 +136,9 @@ def integrate_spin(expr: Expr, target_idx: str, target_spin: str) -> Expr:
         # check of the term is just a number: nothing to do
         # a number can not have any indices -> nothing to do
         if not term_indices:
-            result += term
+            # add the unwrapped number: the assumptions (target indices) of
+            # the term and the result differ if target indices are provided
+            result += term.sympy
             continue
         # - go through all objects in the term and get the allowed spin
         #   blocks of all tensors and deltas contained in the term
